@@ -153,7 +153,7 @@ CHECKS = {
    category='proof',
    text='Lean theorems (all dimensions): the componentwise scaling of compute_scaling satisfies d>0, d*di=1, d*z = s/d = lambda (over the reals '
         'with Real.sqrt); the coded inverse of a q-block scaling is its inverse; block elimination of the documented 3x3 KKT system is sound; '
-        'the kernel of G'DG does not depend on the positive diagonal D (so the singular flag kkt_chol2 fixes at its first call is valid for '
+        'the kernel of G^T D G does not depend on the positive diagonal D (so the singular flag kkt_chol2 fixes at its first call is valid for '
         'every later scaling on the same factory); solutions of a nonsingular system are unique (all five solvers must agree). The real '
         'factories are checked against the documented block system (residual, mutual agreement, factor/solve histories on one factory), and '
         'every W from compute_scaling and every W handed to a user kktsolver during conelp/coneqp solves is checked for the invariants.',
